@@ -7,7 +7,7 @@ type references) x values moved to, just inside and just outside every bound.  T
   * the Lean model `Constraints.check` (proved equivalent to the declarative `admits`);
   * an independent interpreter of the constraints in the harness (mutate.admits)."""
 from .. import core, impl
-from ..gen import Gen, Opts, module_text, ty_sx, val_sx, features, RefCtx
+from ..gen import Gen, Opts, module_text, ty_sx, val_sx, features, RefCtx, is_modelled, variant
 from ..mutate import admits, boundary_variants, first_violation_names
 
 
@@ -22,25 +22,34 @@ def run(ctx):
     for i in range(ctx.n(300, 6000)):
         g = Gen(rng, opts)
         t = g.type()
-        rc = RefCtx(rng, p_con_on_ref=0.15)
-        texts = [('plain', module_text([('A', t)]), set()), ('reorganised', module_text([('A', t)], ctx=rc), rc.flags)]
+        if rng.random() < 0.3:
+            add_serial(rng, t)
+        sib = variant(g, t)
+        rc0 = RefCtx(rng, p_type=0.0, p_value=0.0)
+        rc = RefCtx(rng, p_con_on_ref=0.3)
+        # a sibling type (same names, other constraints) is compiled in the same module: constraints must not leak
+        texts = [('plain', module_text([('A', t), ('B', sib)], ctx=rc0), set(rc0.flags)),
+                 ('reorganised', module_text([('B', sib), ('A', t)], ctx=rc), rc.flags)]
         vals = []
         for _ in range(2):
             v = g.value(t)
             vals.append(v)
             vals += [nv for nv, _ in boundary_variants(rng, t, v)]
-        tsx = ty_sx(t)
+        modelled = is_modelled(t)
+        tsx = ty_sx(t) if modelled else None
         for v in vals:
-            reqs.append('check\t%s\t%s' % (tsx, val_sx(t, v)))
+            reqs.append('check\t%s\t%s' % (tsx, val_sx(t, v)) if modelled else 'ping')
             meta.append((t, texts, v))
     answers = ctx.model.batch(reqs)
     for (t, texts, v), ans in zip(meta, answers):
         want = admits(t, v)
+        if ans == 'pong':       # outside the model universe (serial constraints): harness interpreter only
+            ans = ('ok' if want else 'err') + (' admits=T' if want else ' admits=F')
         model_ok = ans.startswith('ok')
         model_admits = ans.endswith('admits=T')
-        constrained = any(k in ty_sx(t) for k in ('(int ', '(octs ', '(bits ', '(str ', '(seqof '))
+        constrained = any(k in repr(t) for k in ("'int'", "'octs'", "'bits'", "'str'", "'seqof'"))
         if model_ok != want or model_admits != want:
-            ctx.disagreement('model.check vs harness interpreter', {'type': ty_sx(t), 'value': val_sx(t, v)[:300], 'model': ans, 'harness_admits': want})
+            ctx.disagreement('model.check vs harness interpreter', {'type': repr(t)[:300], 'value': val_sx(t, v)[:300], 'model': ans, 'harness_admits': want})
         for style, text, flags in texts:
             for codec in ('ber', 'uper'):
                 st, spec = impl.compile_text(text, codec)
@@ -104,6 +113,23 @@ def run(ctx):
         ctx.notes.append('stale finding: C11-size-on-reference no longer reproduces')
     else:
         ctx.known_finding('C11-size-on-reference', 'witness U ::= T (SIZE(1..2)), T ::= OCTET STRING accepts 3 octets')
+
+
+def add_serial(rng, t):
+    """turn some two-sided non-extensible INTEGER ranges into serial constraints `P (lo2..hi2, ...)` on a parent
+    `P ::= INTEGER (lo..hi)`: the parent's range is still in force (the extensible child adds nothing)"""
+    k = t['k']
+    if k == 'int' and t['con'] and not t['ext'] and t['lo'] is not None and t['hi'] is not None and t['hi'] - t['lo'] >= 3 and rng.random() < 0.6:
+        t['serial'] = (t['lo'] + 1, t['hi'] - 1)
+    if k in ('seq', 'set'):
+        for m in t['root'] + (t['ext'] or []):
+            if m['default'] is None:
+                add_serial(rng, m['t'])
+    if k in ('seqof', 'setof'):
+        add_serial(rng, t['elem'])
+    if k == 'choice':
+        for _, a in t['root'] + (t['ext'] or []):
+            add_serial(rng, a)
 
 
 def replay(ctx, path):
